@@ -127,7 +127,7 @@ class SparseMachine(Machine):
         f["name:Dof"] = PyFunc(lambda M, n, env, _: Fraction(self.group(n, env).dof), lazy=True)
         f["name:IsCommutative"] = PyFunc(lambda M, n, env, _: self.group(n, env).commutative, lazy=True)
         for v in ("generators_sparse", "ad_sparse_pattern", "d_exp_sparse_pattern", "d2_exp_sparse_pattern"):
-            f["name:" + v] = PyFunc(lambda M, n, env, _, v=v: self.variable(v, n, env), lazy=True)
+            f["name:" + v] = PyFunc(lambda M, n, env, _, v=v: self.variable(v, n, env, spec=bool(re.search(r"lie_sparse<|^T::", (n or "").replace("typename", "")))), lazy=True)
         f["name:*"] = PyFunc(self.dependent_name, lazy=True)
         f["requires"] = PyFunc(self.requires, lazy=True)
         f["static_for"] = PyFunc(self.static_for, lazy=True)
